@@ -44,7 +44,7 @@ impl QueryBuilder for PostgresQueryBuilder {
                 write!(sql, "CAST(").unwrap();
                 self.prepare_simple_expr_common(expr, sql);
                 let q = self.quote();
-                let type_name = type_name.to_string();
+                let type_name = type_name.quoted(q);
                 let (ty, sfx) = if type_name.ends_with("[]") {
                     (&type_name[..type_name.len() - 2], "[]")
                 } else {
